@@ -17,7 +17,7 @@ for S in $(ls /verif/seeded | grep '^C' | grep -E "$PAT"); do
   if [ "$MODE" = all ]; then CHECKS="C01 C02 C03 C04 C05 C06 C07 C08 C09 C10 C11 C12 C13 C14 C15 C16 C17 C18 C19 C20"; fi
   if [ -f /verif/seeded/$S/extra_checks ]; then CHECKS="$CHECKS $(cat /verif/seeded/$S/extra_checks)"; fi
   for C in $CHECKS; do
-    LUNARMON_REPO=$WT LUNARMON_OUT=$OUT /verif/check $C quick > $OUT/$S.$C.log 2>&1
+    LUNARMON_FAILFAST=1 LUNARMON_REPO=$WT LUNARMON_OUT=$OUT /verif/check $C quick > $OUT/$S.$C.log 2>&1
     rc=$?
     first=$(grep -m1 "^  violation" $OUT/$S.$C.log | cut -c1-200)
     printf "%s\t%s\t%s\t%s\n" "$S" "$C" "$rc" "$first" >> /verif/seeded/matrix.tsv
